@@ -201,6 +201,9 @@ class Scheduler(Recorder):
 
     def gate(self, token: str, env: bool = False) -> None:
         if self.free:
+            role = "env" if env else self._role()
+            if role is not None:
+                self.emit({"e": "G", "role": str(role), "tok": token})   # keep logging the steps once the schedule is exhausted
             return
         ident = threading.get_ident()
         deadline = time.monotonic() + self.patience
@@ -209,6 +212,9 @@ class Scheduler(Recorder):
                 if self.idx >= len(self.steps):
                     self.free = True  # schedule exhausted: everybody runs freely from here
                     self.cv.notify_all()
+                    role0 = "env" if env else self._role()
+                    if role0 is not None:
+                        self.emit({"e": "G", "role": str(role0), "tok": token})
                     return
                 role, tok = self.steps[self.idx]
                 mine = "env" if env else self._role()
@@ -229,6 +235,7 @@ class Scheduler(Recorder):
                     self.exiting = [t for t in self.exiting if t.is_alive()]
                     self.idx += 1
                     self.followed += 1
+                    self.emit({"e": "G", "role": str(role), "tok": token})
                     if token == "exit":
                         self.exiting.append(threading.current_thread())
                     self.cv.notify_all()
